@@ -178,7 +178,25 @@ impl Prop for C02 {
     fn check(&self, env: &mut Env, case: &Case) -> Verdict {
         let q = &case.key;
         if case.fam == "computed" {
-            return crate::exprcheck::verdict(env.db(), &crate::refcalc::from_json(&case.data), true);
+            use crate::refcalc::{ref_eval, Expr, RefVal};
+            let e = crate::refcalc::from_json(&case.data);
+            // the statement does not say whether a *computed* dimensionless quantity (2 m * 3 N / 6 J)
+            // counts as a plain number, which adopts any unit: not judged (as in C13/C18, DESIGN 8.3)
+            let inner: &Expr = match &e {
+                Expr::To(a, _) => a,
+                Expr::Bin(a, _, b) => match (&**a, &**b) {
+                    (Expr::Paren(p), _) => p,
+                    (_, Expr::Paren(p)) => p,
+                    _ => &e,
+                },
+                _ => &e,
+            };
+            if let RefVal::Defined { si, .. } = ref_eval(inner) {
+                if si.dim == tables::DIM0 {
+                    return Verdict::DontCare("computed dimensionless operand (plain number or not: the statement is silent)");
+                }
+            }
+            return crate::exprcheck::verdict(env.db(), &e, true);
         }
         let got = match obs::eval_one(env.db(), q) {
             Ok(r) => r,
